@@ -29,7 +29,11 @@ EXTENDS Integers, Sequences, FiniteSets, TLC
 
 CONSTANTS Stoppers, Clients, ProducerKind, MaxBlocks, MaxRuns, StartMayFail, RPCLayer, StaleFlag, DoubleSend,
           SharedWaitGroup, \* TRUE = as the code is: Stop waits on the one WaitGroup that every run re-uses
-          Replayable      \* TRUE = leave out select races the replay driver cannot force (tick vs abort, data vs closed)
+          Replayable,     \* TRUE = leave out select races the replay driver cannot force (tick vs abort, data vs closed)
+          WriteClients,   \* clients whose request is WriteControl(START): their closure turns data writing on
+          MaxPolls,       \* how often a waiting client's 50 ms poll is modelled as a step of its own
+          PollOnce,       \* FALSE = as the code is: the poll repeats for as long as the request waits
+          WritingOutlivesRun \* TRUE = as the pinned code was: only a Stop that stops a running source turns writing off
 
 VARIABLES st,        \* sourceState: "Inactive" | "Starting" | "Active" | "Stopping"   (under sourceStateLock)
           runDone,   \* the WaitGroup counter
@@ -45,15 +49,17 @@ VARIABLES st,        \* sourceState: "Inactive" | "Starting" | "Active" | "Stopp
           rpc, rres, \* client pc / result
           runs, panicked, act,
           donegen,   \* ghost: generation of the last run whose core loop has exited
-          gen, kgen  \* ghost: number of Start calls accepted so far; its value when stopper s called Stop
-vars == <<st, runDone, abortC, nbC, flag, spc, cpc, ctos, ppc, nblk, kpc, kres, rpc, rres, runs, panicked, act, gen, kgen, donegen>>
+          gen, kgen, \* ghost: number of Start calls accepted so far; its value when stopper s called Stop
+          writing,   \* writingState.Active of the source object
+          npoll      \* polls a waiting client has made (runLaterIfActive's ticker)
+vars == <<st, runDone, abortC, nbC, flag, spc, cpc, ctos, ppc, nblk, kpc, kres, rpc, rres, runs, panicked, act, gen, kgen, donegen, writing, npoll>>
 
 Init == /\ st = "Inactive" /\ runDone = 0 /\ abortC = FALSE /\ nbC = FALSE /\ flag = FALSE
         /\ spc = "idle" /\ cpc = "none" /\ ctos = 0 /\ ppc = "none" /\ nblk = 0
         /\ kpc = [s \in Stoppers |-> "idle"] /\ kres = [s \in Stoppers |-> "none"]
         /\ rpc = [c \in Clients |-> "idle"] /\ rres = [c \in Clients |-> "none"]
         /\ runs = 0 /\ panicked = FALSE /\ act = [a |-> "Init"]
-        /\ gen = 0 /\ kgen = [s \in Stoppers |-> 0] /\ donegen = 0
+        /\ gen = 0 /\ kgen = [s \in Stoppers |-> 0] /\ donegen = 0 /\ writing = FALSE /\ npoll = [c \in Clients |-> 0]
 
 Live == ~panicked
 
@@ -66,7 +72,7 @@ StartCall ==      \* RPC entry: "already have active source" when the flag is se
           THEN spc' = "starting" /\ st' = "Starting" /\ act' = [a |-> "StartCall", r |-> "ok"]
           ELSE spc' = "failed" /\ act' = [a |-> "StartCall", r |-> "refused-state"] /\ UNCHANGED st
   /\ gen' = IF spc' = "starting" THEN gen + 1 ELSE gen
-  /\ UNCHANGED <<runDone, abortC, nbC, flag, cpc, ctos, ppc, nblk, kpc, kres, rpc, rres, runs, panicked, kgen, donegen>>
+  /\ UNCHANGED <<runDone, abortC, nbC, flag, cpc, ctos, ppc, nblk, kpc, kres, rpc, rres, runs, panicked, kgen, donegen, writing, npoll>>
 
 StartFail(phase) ==   \* Sample / PrepareRun fails: SetStateInactive, error returned (vpoint Start.failed)
   /\ Live /\ phase \in StartMayFail
@@ -74,16 +80,16 @@ StartFail(phase) ==   \* Sample / PrepareRun fails: SetStateInactive, error retu
      \/ (phase = "prepare" /\ spc = "sampled")
   /\ st' = "Inactive" /\ spc' = "failed" /\ flag' = FALSE
   /\ act' = [a |-> "StartFail", phase |-> phase]
-  /\ UNCHANGED <<runDone, abortC, nbC, cpc, ctos, ppc, nblk, kpc, kres, rpc, rres, runs, panicked, gen, kgen, donegen>>
+  /\ UNCHANGED <<runDone, abortC, nbC, cpc, ctos, ppc, nblk, kpc, kres, rpc, rres, runs, panicked, gen, kgen, donegen, writing, npoll>>
 
 StartSample ==    \* vpoint Start.sampled
   /\ Live /\ spc = "starting" /\ spc' = "sampled" /\ act' = [a |-> "StartSample"]
-  /\ UNCHANGED <<st, runDone, abortC, nbC, flag, cpc, ctos, ppc, nblk, kpc, kres, rpc, rres, runs, panicked, gen, kgen, donegen>>
+  /\ UNCHANGED <<st, runDone, abortC, nbC, flag, cpc, ctos, ppc, nblk, kpc, kres, rpc, rres, runs, panicked, gen, kgen, donegen, writing, npoll>>
 
 StartPrepare ==   \* PrepareRun makes fresh abortSelf / nextBlock channels (vpoint Start.prepared)
   /\ Live /\ spc = "sampled" /\ spc' = "prepared" /\ abortC' = FALSE /\ nbC' = FALSE
   /\ act' = [a |-> "StartPrepare"]
-  /\ UNCHANGED <<st, runDone, flag, cpc, ctos, ppc, nblk, kpc, kres, rpc, rres, runs, panicked, gen, kgen, donegen>>
+  /\ UNCHANGED <<st, runDone, flag, cpc, ctos, ppc, nblk, kpc, kres, rpc, rres, runs, panicked, gen, kgen, donegen, writing, npoll>>
 
 StartActivate ==  \* RunDoneActivate + StartRun (producer launched) + go CoreLoop (vpoint Start.launched)
   /\ Live /\ spc = "prepared" /\ spc' = "launched"
@@ -91,95 +97,98 @@ StartActivate ==  \* RunDoneActivate + StartRun (producer launched) + go CoreLoo
   /\ ppc' = IF ProducerKind = "erroring" THEN "senderr" ELSE "wait"
   /\ nblk' = 0 /\ cpc' = "select"
   /\ act' = [a |-> "StartActivate"]
-  /\ UNCHANGED <<abortC, nbC, flag, ctos, kpc, kres, rpc, rres, runs, panicked, gen, kgen, donegen>>
+  /\ UNCHANGED <<abortC, nbC, flag, ctos, kpc, kres, rpc, rres, runs, panicked, gen, kgen, donegen, writing, npoll>>
 
 StartReturn ==    \* back in SourceControl.Start: isSourceActive = true, broadcasts
   /\ Live /\ spc = "launched" /\ spc' = "done" /\ runs' = runs + 1
   /\ flag' = (st = "Active")   \* isSourceActive = true, then broadcastStatus -> handlePossibleStoppedSource
   /\ act' = [a |-> "StartReturn"]
-  /\ UNCHANGED <<st, runDone, abortC, nbC, cpc, ctos, ppc, nblk, kpc, kres, rpc, rres, panicked, gen, kgen, donegen>>
+  /\ UNCHANGED <<st, runDone, abortC, nbC, cpc, ctos, ppc, nblk, kpc, kres, rpc, rres, panicked, gen, kgen, donegen, writing, npoll>>
 
 \* ------------------------------------------------------------------ producer
 ProducerTick ==   \* time.After fired: block built (vpoint Producer.send is before the send)
   /\ Live /\ ppc = "wait" /\ nblk < MaxBlocks /\ ppc' = "send" /\ nblk' = nblk + 1
   /\ (Replayable => ~abortC)
   /\ act' = [a |-> "ProducerTick"]
-  /\ UNCHANGED <<st, runDone, abortC, nbC, flag, spc, cpc, ctos, kpc, kres, rpc, rres, runs, panicked, gen, kgen, donegen>>
+  /\ UNCHANGED <<st, runDone, abortC, nbC, flag, spc, cpc, ctos, kpc, kres, rpc, rres, runs, panicked, gen, kgen, donegen, writing, npoll>>
 
 ProducerAbort ==  \* abort arm: close(nextBlock), goroutine returns (vpoint Producer.abort)
   /\ Live /\ ppc = "wait" /\ abortC /\ ppc' = "done" /\ nbC' = TRUE
   /\ act' = [a |-> "ProducerAbort"]
-  /\ UNCHANGED <<st, runDone, abortC, flag, spc, cpc, ctos, nblk, kpc, kres, rpc, rres, runs, panicked, gen, kgen, donegen>>
+  /\ UNCHANGED <<st, runDone, abortC, flag, spc, cpc, ctos, nblk, kpc, kres, rpc, rres, runs, panicked, gen, kgen, donegen, writing, npoll>>
 
 \* ------------------------------------------------------------------ core loop
-CoreExit(why) ==
+CoreExit(why) ==    \* the deferred calls of CoreLoop: (repaired) stop writing if it is on, then RunDoneDeactivate
   /\ cpc' = "gone" /\ st' = "Inactive" /\ runDone' = 0 /\ donegen' = gen
+  /\ writing' = IF WritingOutlivesRun THEN writing ELSE FALSE
   /\ act' = [a |-> "CoreExit", why |-> why]
 
 CoreTakeBlock ==  \* rendezvous nextBlock: producer at send, core in select (vpoint CoreLoop.block)
   /\ Live /\ cpc = "select" /\ ppc = "send" /\ (Replayable => ~nbC)
   /\ cpc' = "blk" /\ ppc' = "wait" /\ act' = [a |-> "CoreTakeBlock"]
-  /\ UNCHANGED <<st, runDone, abortC, nbC, flag, spc, ctos, nblk, kpc, kres, rpc, rres, runs, panicked, gen, kgen, donegen>>
+  /\ UNCHANGED <<st, runDone, abortC, nbC, flag, spc, ctos, nblk, kpc, kres, rpc, rres, runs, panicked, gen, kgen, donegen, writing, npoll>>
 
 CoreBlockDone ==  \* ProcessSegments returned (vpoint CoreLoop.blockDone)
   /\ Live /\ cpc = "blk" /\ cpc' = "select" /\ act' = [a |-> "CoreBlockDone"]
-  /\ UNCHANGED <<st, runDone, abortC, nbC, flag, spc, ctos, ppc, nblk, kpc, kres, rpc, rres, runs, panicked, gen, kgen, donegen>>
+  /\ UNCHANGED <<st, runDone, abortC, nbC, flag, spc, ctos, ppc, nblk, kpc, kres, rpc, rres, runs, panicked, gen, kgen, donegen, writing, npoll>>
 
 CoreTakeErr ==    \* error block: CoreLoop returns, deferred RunDoneDeactivate
   /\ Live /\ cpc = "select" /\ ppc = "senderr"
   /\ ppc' = "done" /\ CoreExit("errblock")
-  /\ UNCHANGED <<abortC, nbC, flag, spc, ctos, nblk, kpc, kres, rpc, rres, runs, panicked, gen, kgen>>
+  /\ UNCHANGED <<abortC, nbC, flag, spc, ctos, nblk, kpc, kres, rpc, rres, runs, panicked, gen, kgen, npoll>>
 
 CoreSeeClosed ==  \* nextBlock closed: CoreLoop returns
   /\ Live /\ cpc = "select" /\ nbC /\ CoreExit("closed")
-  /\ UNCHANGED <<abortC, nbC, flag, spc, ctos, ppc, nblk, kpc, kres, rpc, rres, runs, panicked, gen, kgen>>
+  /\ UNCHANGED <<abortC, nbC, flag, spc, ctos, ppc, nblk, kpc, kres, rpc, rres, runs, panicked, gen, kgen, npoll>>
 
 CoreTakeReq(c) == \* rendezvous queuedRequests (vpoint CoreLoop.request)
-  /\ Live /\ cpc = "select" /\ rpc[c] = "checked" /\ (Replayable => ~nbC)
+  /\ Live /\ cpc = "select" /\ rpc[c] \in {"checked", "waiting"} /\ (Replayable => ~nbC)
   /\ cpc' = "req" /\ rpc' = [rpc EXCEPT ![c] = "sent"]
   /\ \E n \in (IF DoubleSend THEN {1, 2} ELSE {1}) : ctos' = n
   /\ act' = [a |-> "CoreTakeReq", c |-> c, nres |-> ctos']
-  /\ UNCHANGED <<st, runDone, abortC, nbC, flag, spc, ppc, nblk, kpc, kres, rres, runs, panicked, gen, kgen, donegen>>
+  /\ UNCHANGED <<st, runDone, abortC, nbC, flag, spc, ppc, nblk, kpc, kres, rres, runs, panicked, gen, kgen, donegen, writing, npoll>>
 
 CoreSendResult(c) ==  \* rendezvous queuedResults: closure sends, a client waiting for its result receives
   /\ Live /\ cpc = "req" /\ ctos > 0 /\ rpc[c] = "sent"
   /\ ctos' = ctos - 1 /\ rpc' = [rpc EXCEPT ![c] = "done"] /\ rres' = [rres EXCEPT ![c] = "result"]
+  /\ writing' = IF c \in WriteClients THEN TRUE ELSE writing      \* the closure ran WriteControl(START) before it answers
   /\ act' = [a |-> "CoreSendResult", c |-> c]
-  /\ UNCHANGED <<st, runDone, abortC, nbC, flag, spc, cpc, ppc, nblk, kpc, kres, runs, panicked, gen, kgen, donegen>>
+  /\ UNCHANGED <<st, runDone, abortC, nbC, flag, spc, cpc, ppc, nblk, kpc, kres, runs, panicked, gen, kgen, donegen, npoll>>
 
 CoreReqDone ==    \* closure returned (vpoint CoreLoop.requestDone)
   /\ Live /\ cpc = "req" /\ ctos = 0 /\ cpc' = "select" /\ act' = [a |-> "CoreReqDone"]
-  /\ UNCHANGED <<st, runDone, abortC, nbC, flag, spc, ctos, ppc, nblk, kpc, kres, rpc, rres, runs, panicked, gen, kgen, donegen>>
+  /\ UNCHANGED <<st, runDone, abortC, nbC, flag, spc, ctos, ppc, nblk, kpc, kres, rpc, rres, runs, panicked, gen, kgen, donegen, writing, npoll>>
 
 \* ------------------------------------------------------------------ stoppers
 StopCall(s) ==    \* SourceControl.Stop's flag check, then AnySource.Stop's state switch under the lock
   /\ Live /\ kpc[s] = "idle"
   /\ IF RPCLayer /\ ~flag
      THEN /\ kpc' = [kpc EXCEPT ![s] = "returned"] /\ kres' = [kres EXCEPT ![s] = "refused-flag"]
-          /\ UNCHANGED <<st, abortC, panicked>>
+          /\ UNCHANGED <<st, abortC, panicked, writing, npoll>>
      ELSE CASE st = "Inactive" -> /\ kpc' = [kpc EXCEPT ![s] = "post"] /\ kres' = [kres EXCEPT ![s] = "not-active"]
-                                  /\ UNCHANGED <<st, abortC, panicked>>
-            [] st = "Starting" -> /\ panicked' = TRUE /\ UNCHANGED <<st, abortC, kpc, kres>>
+                                  /\ UNCHANGED <<st, abortC, panicked, writing, npoll>>
+            [] st = "Starting" -> /\ panicked' = TRUE /\ UNCHANGED <<st, abortC, kpc, kres, writing, npoll>>
             [] st = "Stopping" -> /\ kpc' = [kpc EXCEPT ![s] = "post"] /\ kres' = [kres EXCEPT ![s] = "ok"]
-                                  /\ UNCHANGED <<st, abortC, panicked>>
+                                  /\ UNCHANGED <<st, abortC, panicked, writing, npoll>>
             [] st = "Active"   -> /\ st' = "Stopping" /\ abortC' = TRUE
                                   /\ kpc' = [kpc EXCEPT ![s] = "signalled"] /\ kres' = [kres EXCEPT ![s] = "ok"]
                                   /\ UNCHANGED panicked
   /\ act' = [a |-> "StopCall", s |-> s, r |-> kres'[s]]
   /\ kgen' = [kgen EXCEPT ![s] = gen]
-  /\ UNCHANGED <<runDone, nbC, flag, spc, cpc, ctos, ppc, nblk, rpc, rres, runs, gen, donegen>>
+  /\ UNCHANGED <<runDone, nbC, flag, spc, cpc, ctos, ppc, nblk, rpc, rres, runs, gen, donegen, writing, npoll>>
 
 StopWaited(s) ==  \* RunDoneWait returned (vpoint Stop.waited)
   /\ Live /\ kpc[s] = "signalled" /\ (IF SharedWaitGroup THEN runDone = 0 ELSE donegen >= kgen[s])
   /\ kpc' = [kpc EXCEPT ![s] = "post"] /\ act' = [a |-> "StopWaited", s |-> s]
-  /\ UNCHANGED <<st, runDone, abortC, nbC, flag, spc, cpc, ctos, ppc, nblk, kres, rpc, rres, runs, panicked, gen, kgen, donegen>>
+  /\ writing' = FALSE                                             \* if ds.writingState.Active { WriteControl(STOP) }
+  /\ UNCHANGED <<st, runDone, abortC, nbC, flag, spc, cpc, ctos, ppc, nblk, kres, rpc, rres, runs, panicked, gen, kgen, donegen, npoll>>
 
 StopReturn(s) ==  \* handlePossibleStoppedSource (RPC layer): flag := FALSE when the source is not Active
   /\ Live /\ kpc[s] = "post"
   /\ kpc' = [kpc EXCEPT ![s] = "returned"]
   /\ flag' = IF RPCLayer /\ flag /\ st # "Active" THEN FALSE ELSE flag
   /\ act' = [a |-> "StopReturn", s |-> s]
-  /\ UNCHANGED <<st, runDone, abortC, nbC, spc, cpc, ctos, ppc, nblk, kres, rpc, rres, runs, panicked, gen, kgen, donegen>>
+  /\ UNCHANGED <<st, runDone, abortC, nbC, spc, cpc, ctos, ppc, nblk, kres, rpc, rres, runs, panicked, gen, kgen, donegen, writing, npoll>>
 
 \* ------------------------------------------------------------------ clients (runLaterIfActive)
 ReqCall(c) ==
@@ -188,19 +197,26 @@ ReqCall(c) ==
      THEN rpc' = [rpc EXCEPT ![c] = "checked"] /\ UNCHANGED rres
      ELSE rpc' = [rpc EXCEPT ![c] = "done"] /\ rres' = [rres EXCEPT ![c] = "no-source"]
   /\ act' = [a |-> "ReqCall", c |-> c, r |-> IF rpc'[c] = "checked" THEN "queued" ELSE "no-source"]
-  /\ UNCHANGED <<st, runDone, abortC, nbC, flag, spc, cpc, ctos, ppc, nblk, kpc, kres, runs, panicked, gen, kgen, donegen>>
+  /\ UNCHANGED <<st, runDone, abortC, nbC, flag, spc, cpc, ctos, ppc, nblk, kpc, kres, runs, panicked, gen, kgen, donegen, writing, npoll>>
 
 ReqGiveUp(c) ==   \* repaired runLaterIfActive: while waiting to hand over the closure it notices the source is gone
-  /\ Live /\ ~StaleFlag /\ rpc[c] = "checked" /\ cpc \in {"gone", "none"}
+  /\ Live /\ ~StaleFlag /\ rpc[c] \in {"checked", "waiting"} /\ cpc \in {"gone", "none"}
+  /\ (PollOnce => npoll[c] = 0)          \* a poll that does not repeat has been used up
   /\ rpc' = [rpc EXCEPT ![c] = "done"] /\ rres' = [rres EXCEPT ![c] = "no-source"]
   /\ act' = [a |-> "ReqGiveUp", c |-> c]
-  /\ UNCHANGED <<st, runDone, abortC, nbC, flag, spc, cpc, ctos, ppc, nblk, kpc, kres, runs, panicked, gen, kgen, donegen>>
+  /\ UNCHANGED <<st, runDone, abortC, nbC, flag, spc, cpc, ctos, ppc, nblk, kpc, kres, runs, panicked, gen, kgen, donegen, writing, npoll>>
+
+ReqPoll(c) ==     \* the waiting client's ticker fires while the source is still there: it keeps waiting
+  /\ Live /\ rpc[c] \in {"checked", "waiting"} /\ st # "Inactive" /\ npoll[c] < MaxPolls
+  /\ rpc' = [rpc EXCEPT ![c] = "waiting"] /\ npoll' = [npoll EXCEPT ![c] = npoll[c] + 1]
+  /\ act' = [a |-> "ReqPoll", c |-> c]
+  /\ UNCHANGED <<st, runDone, abortC, nbC, flag, spc, cpc, ctos, ppc, nblk, kpc, kres, rres, runs, panicked, gen, kgen, donegen, writing>>
 
 Next == \/ StartCall \/ StartSample \/ StartPrepare \/ StartActivate \/ StartReturn
         \/ \E ph \in {"sample", "prepare"} : StartFail(ph)
         \/ ProducerTick \/ ProducerAbort
         \/ CoreTakeBlock \/ CoreBlockDone \/ CoreTakeErr \/ CoreSeeClosed \/ CoreReqDone
-        \/ \E c \in Clients : CoreTakeReq(c) \/ CoreSendResult(c) \/ ReqCall(c) \/ ReqGiveUp(c)
+        \/ \E c \in Clients : CoreTakeReq(c) \/ CoreSendResult(c) \/ ReqCall(c) \/ ReqGiveUp(c) \/ ReqPoll(c)
         \/ \E s \in Stoppers : StopCall(s) \/ StopWaited(s) \/ StopReturn(s)
 
 \* fairness: every process keeps running if it can (a blocked channel operation is a disabled action).  All
@@ -223,6 +239,10 @@ C10_after_stops == (AllStopsReturned /\ SomeStopOK /\ spc \in {"done", "failed"}
                      /\ \A s \in Stoppers : kgen[s] = gen)
                      => (st = "Inactive" /\ runDone = 0 /\ cpc \in {"gone", "none"} /\ ppc \in {"done", "none"}
                          /\ (RPCLayer => ~flag))
+\* ... and data writing is off.  Stated for every way the Stop calls ended (also those that found the source already
+\* gone: "racing with the source ending itself"), as long as no Start came after them.
+C10_writing_stopped == (AllStopsReturned /\ spc \in {"done", "failed"} /\ act.a = "StopReturn" /\ st = "Inactive"
+                         /\ cpc \in {"gone", "none"} /\ \A s \in Stoppers : kgen[s] = gen) => ~writing
 C10_failed_start_clean == spc = "failed" /\ act.a = "StartFail" => st = "Inactive"
 C10_nopanic == ~panicked
 C11_mutex == ~(cpc = "req" /\ cpc = "blk")   \* by construction in the model; checked on real traces
@@ -232,7 +252,7 @@ C10_no_stuck_stop == Terminal => \A s \in Stoppers : kpc[s] \in {"idle", "return
 C11_no_stuck_request == Terminal => (cpc # "req" /\ \A c \in Clients : rpc[c] \in {"idle", "done"})
 \* liveness: every Stop call returns; every request is answered; (under Fair)
 C10_stop_returns == \A s \in Stoppers : (kpc[s] # "idle") ~> (kpc[s] = "returned" \/ panicked)
-C11_answered     == \A c \in Clients : (rpc[c] \in {"checked", "sent"}) ~> (rpc[c] = "done" \/ panicked)
+C11_answered     == \A c \in Clients : (rpc[c] \in {"checked", "waiting", "sent"}) ~> (rpc[c] = "done" \/ panicked)
 \* the core loop is never parked inside a request closure forever
 C11_no_wedge     == (cpc = "req") ~> (cpc # "req" \/ panicked)
 
@@ -242,13 +262,15 @@ C11_no_wedge     == (cpc = "req") ~> (cpc # "req" \/ panicked)
 NotG1 == ~(ppc = "send" /\ abortC /\ cpc = "req")          \* Stop signalled while the producer is parked in its send and the core runs a request
 NotG2 == ~(ppc = "send" /\ abortC /\ cpc = "blk")          \* ... and the core is processing a block
 NotG3 == ~(\E a, b \in Stoppers : a # b /\ kpc[a] = "signalled" /\ kpc[b] = "post")
-NotG4 == ~(\E c \in Clients : rpc[c] = "checked" /\ cpc = "gone")
-NotG5 == ~(\E c \in Clients : rpc[c] = "checked" /\ abortC /\ cpc = "select" /\ ~nbC)
+NotG4 == ~(\E c \in Clients : rpc[c] \in {"checked", "waiting"} /\ cpc = "gone")
+NotG5 == ~(\E c \in Clients : rpc[c] \in {"checked", "waiting"} /\ abortC /\ cpc = "select" /\ ~nbC)
 NotG6 == ~(spc = "launched" /\ cpc = "gone")
 NotG7 == ~(\E c \in Clients : rpc[c] = "sent" /\ abortC)
 NotG8 == ~(gen = 2 /\ \E s \in Stoppers : kpc[s] = "signalled")
 NotG9 == ~(ppc = "send" /\ abortC /\ cpc = "select")
-NotG10 == ~(\E c \in Clients : rpc[c] = "checked" /\ ppc = "send" /\ cpc = "select")   \* request and block both ready
+NotG10 == ~(\E c \in Clients : rpc[c] \in {"checked", "waiting"} /\ ppc = "send" /\ cpc = "select")   \* request and block both ready
 NotG11 == ~(act.a = "StartCall" /\ act.r = "refused-state" /\ st = "Stopping")          \* Start arrives while the source is stopping (flag already cleared by another Stop)
+NotG13 == ~(act.a = "CoreSendResult" /\ act.c \in WriteClients /\ \E s \in Stoppers : kpc[s] = "signalled")   \* writing is switched on after a Stop has signalled
+NotG14 == ~(\E c \in Clients : rpc[c] = "waiting" /\ npoll[c] >= 1 /\ cpc = "gone")   \* a client has polled a live source at least once, then the core loop is gone without taking its request
 NotG12 == ~(act.a = "StartCall" /\ act.r = "refused-state" /\ st = "Active")
 =============================================================================
